@@ -25,6 +25,8 @@ IsEvent(a) == l <= Len(Trace) /\ Ev.a = a /\ l' = l + 1
 Stutter == UNCHANGED vars
 
 TCall     == IsEvent("Call") /\ Call(Ev.c)
+TRdCall   == IsEvent("RdCall") /\ RdCall(Ev.c) /\ pc'[Ev.c] = "wait"
+TUpdate   == IsEvent("UpdateSlot") /\ UpdateSlot(Ev.c)
 TWaitOk   == IsEvent("WaitOk") /\ WaitOk(Ev.c)
 TInstall  == IsEvent("Install") /\ Install(Ev.c) /\ pc'[Ev.c] = "installed"
 TConflict == IsEvent("Conflict") /\ Install(Ev.c) /\ pc'[Ev.c] = "conflict"
@@ -36,20 +38,21 @@ TClose    == IsEvent("Close") /\
                THEN \E c \in Cmds : pc[c] = "installed" /\ base[c] = Ev.lb /\ DrainDispose(c)
                ELSE IF Ev.lb \in Cmds /\ pc[Ev.lb] = "conflict" THEN ConflictDispose(Ev.lb)
                ELSE IF Ev.lb \in Cmds /\ pc[Ev.lb] = "wait" THEN WaitFail(Ev.lb)
-               ELSE IF \E c \in Cmds : Kind[c] = "remove" /\ pc[c] = "new" /\ tbl[Name[c]] = Ev.lb
-               THEN \E c \in Cmds : Kind[c] = "remove" /\ pc[c] = "new" /\ tbl[Name[c]] = Ev.lb /\ Remove(c)
+               ELSE IF \E c \in Cmds : Kind[c] = "remove" /\ pc[c] = "new" /\ tbl[Name[c]] # None /\ Ev.lb \in {tbl[Name[c]], rb[tbl[Name[c]]]}
+               THEN \E c \in Cmds : Kind[c] = "remove" /\ pc[c] = "new" /\ tbl[Name[c]] # None /\ Ev.lb \in {tbl[Name[c]], rb[tbl[Name[c]]]} /\ Remove(c)
                ELSE Ev.lb \notin probing /\ Stutter
 \* what is left of the command before it returns and has no event of its own
 TPreRet   == IsEvent("PreRet") /\
                CASE pc[Ev.c] = "installed" -> DrainDispose(Ev.c)          \* nothing (left) to dispose
                  [] pc[Ev.c] = "conflict"  -> ConflictDispose(Ev.c)
                  [] pc[Ev.c] = "wait"      -> WaitFail(Ev.c)
-                 [] pc[Ev.c] = "new"       -> Remove(Ev.c) /\ res'[Ev.c] = "not_found"    \* remove of an unknown service
+                 [] pc[Ev.c] = "new" /\ Kind[Ev.c] = "remove"  -> Remove(Ev.c) /\ res'[Ev.c] = "not_found"    \* unknown service
+                 [] pc[Ev.c] = "new" /\ Kind[Ev.c] = "rdeploy" -> RdCall(Ev.c) /\ res'[Ev.c] = "not_found"
                  [] pc[Ev.c] = "ret"       -> Stutter
 TReturn   == IsEvent("Return") /\ res[Ev.c] = Ev.res /\ Return(Ev.c)
 TProbing  == IsEvent("Probing") /\ probing = SetOf(Ev.lbs) /\ Stutter
 
-TraceNext == /\ \/ TCall \/ TWaitOk \/ TInstall \/ TConflict \/ TRemove \/ TClose \/ TPreRet \/ TReturn \/ TProbing
+TraceNext == /\ \/ TCall \/ TRdCall \/ TUpdate \/ TWaitOk \/ TInstall \/ TConflict \/ TRemove \/ TClose \/ TPreRet \/ TReturn \/ TProbing
              /\ TLCSet(1, IF TLCGet(1) < l' THEN l' ELSE TLCGet(1))
 TraceInit == Init /\ l = 2 /\ TLCSet(1, 2)
 TraceSpec == TraceInit /\ [][TraceNext]_tvars
